@@ -27,6 +27,13 @@ static void nv_spawn_threads(struct nv_workers* first, struct nv_workers* last, 
   __CPROVER_assert(first == last, "constructor: begin/end of the same vector");
   out->size = out->size + first->size;
 }
+/* queue_t::queue_t() = default: extracted (queue_ctor, default member initialisers included); the constructor
+ * expression in pool_t's initialiser list needs a value */
+void queue_ctor(struct nv_queue* self);
+static struct nv_queue nv_queue_make(void) { struct nv_queue q; queue_ctor(&q); return q; }
+#define NV_CONTRACT_queue_ctor \
+__CPROVER_requires(__CPROVER_is_fresh(self, sizeof(*self))) __CPROVER_assigns(*self) \
+__CPROVER_ensures(!self->m_stop && self->m_tasks.size == 0)
 #define NV_MAX_SIZE (nv_hw >= 1 ? (uint64_t)nv_hw : (uint64_t)1)
 #define NV_CONTRACT_pool_max_size \
 __CPROVER_assigns() \
